@@ -142,6 +142,12 @@ func (v *verdict) evalEmbedded(f *fieldD, s *source, inherited, tree map[string]
 		} else if c.Opt != optPlain {
 			all = false
 		}
+		if c.Opt == optDep || c.Opt == optNotDep {
+			v.unk("optional embedded struct %s has a member with a dependency rule", f.GoName)
+		}
+	}
+	if s.ctx.Canon != nil {
+		v.unk("optional embedded struct %s under a key-canonicalising unmarshaler", f.GoName)
 	}
 	if present == 0 {
 		return
@@ -149,17 +155,22 @@ func (v *verdict) evalEmbedded(f *fieldD, s *source, inherited, tree map[string]
 	if !all {
 		v.unk("optional embedded struct %s partially supplied", f.GoName)
 	}
-	sub := &verdict{}
-	sub.evalFields(f.Sub.Fields, []*source{s}, tree, path)
-	// range / option violations of supplied members still bind; "required-missing" inside an
-	// optional embedded struct is not claimed
-	for _, r := range sub.must {
-		if r.Kind != "required-missing" {
+	for _, c := range f.Sub.Fields {
+		sub := &verdict{}
+		sub.evalFields([]*fieldD{c}, []*source{s}, tree, path)
+		// range / option violations of supplied members still bind; a missing direct member of
+		// an optional embedded struct is not claimed either way
+		own := joinPath(path, c.key())
+		for _, r := range sub.must {
+			if r.Kind == "required-missing" && r.Path == own {
+				v.unk("member %s of optional embedded struct %s missing", own, f.GoName)
+				continue
+			}
 			v.must = append(v.must, r)
 		}
+		v.unknown = append(v.unknown, sub.unknown...)
+		v.add(sub)
 	}
-	v.unknown = append(v.unknown, sub.unknown...)
-	v.add(sub)
 }
 
 func (v *verdict) add(o *verdict) {
@@ -194,6 +205,9 @@ func (v *verdict) evalField(f *fieldD, s *source, tree map[string]any, path stri
 			cls += "+dep-present"
 		default:
 			cls += "+dep-absent"
+		}
+		if ctx.Canon != nil {
+			cls += "+canon-keys"
 		}
 		if ambiguous {
 			v.unk("dependency rule of %s evaluated on a null value", p)
@@ -649,6 +663,9 @@ func (c *comparer) fields(fields []*fieldD, sv reflect.Value, cands []*source, t
 				continue
 			}
 			s := rd[0]
+			if s.ctx.Canon != nil {
+				continue // see evalEmbedded: not claimed under a key-canonicalising unmarshaler
+			}
 			t := tree
 			if t == nil {
 				t = s.tree
